@@ -544,14 +544,9 @@ func (w *World) stringValueSwitch(P string, r *Roles) {
 			}
 			// blocks where this assertion succeeded
 			methods := map[string]bool{}
+			arms := typeSwitchArms(sw)
 			for _, b := range sw.Blocks {
-				ok := false
-				for _, at := range guardAtoms(b) {
-					if ex, isEx := at.V.(*ssa.Extract); isEx && ex.Tuple == ssa.Value(ta) && ex.Index == 1 && at.Pol {
-						ok = true
-					}
-				}
-				if !ok {
+				if !arms[b][ta] {
 					continue
 				}
 				for _, in := range b.Instrs {
